@@ -235,7 +235,7 @@ fn std_trait_args(derive: &str) -> Option<&'static str> {
 /// `with_trait`), README "Installation" (each derive has to be enabled by its feature), impl/src/lib.rs
 /// (`create_derive!` feature per macro — cross-checked against the tree by `dm::crosscheck_table`), the helper error
 /// types named in impl/doc/{add,not,from_str,try_into,try_unwrap}.md and the `cfg`s of the pinned src/lib.rs
-/// (`UnitError` belongs to `add` *or* `not`, `TryFromReprError` to `try_from`, ...). `__private` is "not public,
+/// (`UnitError` belongs to `add`, `mul` *or* `not` — `#[mul(forward)]` on enums expands like the Add-like derives —, `TryFromReprError` to `try_from`, ...). `__private` is "not public,
 /// but exported API for macro expansions": only its presence under the owning feature is asserted.
 fn probes() -> Vec<Probe> {
     let mut v = vec![];
@@ -274,9 +274,9 @@ fn probes() -> Vec<Probe> {
         }
     }
     let helpers: &[(&str, &[&'static str])] = &[
-        ("BinaryError", &["add"]),
-        ("WrongVariantError", &["add"]),
-        ("UnitError", &["add", "not"]),
+        ("BinaryError", &["add", "mul"]),
+        ("WrongVariantError", &["add", "mul"]),
+        ("UnitError", &["add", "mul", "not"]),
         ("FromStrError", &["from_str"]),
         ("TryFromReprError", &["try_from"]),
         ("TryIntoError", &["try_into"]),
@@ -485,6 +485,7 @@ struct SetResult {
     items_resolved: usize,
     tests_run: Vec<String>,
     test_fns_passed: u64,
+    usage_programs: usize,
     secs: f64,
 }
 
@@ -687,8 +688,194 @@ fn eval_set(ctx: &Ctx, tree: &Tree, set: &FeatSet, sl: &Slot) -> SetResult {
             r.tests_run = tests;
         }
     }
+
+    // ---- (4) each derive of the enabled features behaves as it does under `full` --------------------------------
+    // usage programs (the behaviour templates of check C15: documented forms of every derive family, incl. forms the
+    // repository's own test programs do not contain) are compiled against exactly this configuration and must print
+    // what they print under `full`
+    match usage_programs(ctx, sl, set, &enabled) {
+        Err(e) => r.infra.push(e),
+        Ok(results) => {
+            r.usage_programs = results.len();
+            let reference = usage_reference();
+            for (name, res) in results {
+                match (res, reference.get(&name)) {
+                    (Ok(out), Some(want)) if &out == want => {}
+                    (Ok(out), Some(want)) => r.fails.push(StageFail {
+                        stage: "usage-run",
+                        summary: format!("usage program `{name}` behaves differently from `full`"),
+                        expected: want.clone(),
+                        observed: out,
+                    }),
+                    (Ok(_), None) => {}
+                    (Err(e), _) => r.fails.push(StageFail {
+                        stage: "usage-compile",
+                        summary: format!("usage program `{name}` (derives of the enabled features only) does not compile: {}", head(&e, 160)),
+                        expected: "compiles as it does under `full`".into(),
+                        observed: e,
+                    }),
+                }
+            }
+        }
+    }
     r.secs = t0.elapsed().as_secs_f64();
     r
+}
+
+fn init_usage_reference(ctx: &Ctx, tree: &Tree, jobs: usize, rep: &mut Report) {
+    if USAGE_REF.get().is_some() {
+        return;
+    }
+    // reference outputs of the usage programs: `full` with std (what the pinned suite's configuration does)
+    {
+        let full = FeatSet::new(vec!["full".to_string()], true);
+        let enabled = tree.enabled_derive_features(&full);
+        match usage_programs(ctx, &slot(ctx, 0, jobs), &full, &enabled) {
+            Ok(res) => {
+                let mut m = BTreeMap::new();
+                for (name, r) in res {
+                    match r {
+                        Ok(out) => {
+                            m.insert(name, out);
+                        }
+                        Err(e) => rep.infra_errors.push(format!("usage program `{name}` does not compile under `full`: {}", head(&e, 400))),
+                    }
+                }
+                rep.evidence.set("usage_programs_reference", json!(m.len()));
+                let _ = USAGE_REF.set(m);
+            }
+            Err(e) => {
+                rep.infra_errors.push(format!("usage reference: {e}"));
+                let _ = USAGE_REF.set(BTreeMap::new());
+            }
+        }
+    }
+}
+
+static USAGE_REF: std::sync::OnceLock<BTreeMap<String, String>> = std::sync::OnceLock::new();
+
+fn usage_reference() -> &'static BTreeMap<String, String> {
+    USAGE_REF.get().expect("usage reference is computed before the matrix runs")
+}
+
+/// features a behaviour template needs (features of the derive_more derives it mentions)
+fn template_features(items: &str) -> BTreeSet<String> {
+    let mut out = BTreeSet::new();
+    let mut rest = items;
+    while let Some(i) = rest.find("derive_more::") {
+        let tail = &rest[i + "derive_more::".len()..];
+        let name: String = tail.chars().take_while(|c| c.is_alphanumeric()).collect();
+        if let Some(d) = super::dm::Derive::by_name(&name) {
+            out.insert(d.info().feature.to_string());
+        }
+        rest = tail;
+    }
+    out
+}
+
+/// Builds and runs the applicable usage programs against derive_more with exactly the features of `set`.
+/// Returns per program Ok(output) or Err(compile diagnostics).
+fn usage_programs(ctx: &Ctx, sl: &Slot, set: &FeatSet, enabled: &BTreeSet<String>) -> Result<Vec<(String, Result<String, String>)>, String> {
+    let dir = sl.probe_dir.with_file_name(format!("{}_usage", sl.probe_dir.file_name().unwrap().to_string_lossy()));
+    std::fs::create_dir_all(dir.join("src")).map_err(|e| e.to_string())?;
+    let mut feats: Vec<String> = set.feats.iter().map(|f| format!("\"{f}\"")).collect();
+    if set.std {
+        feats.push("\"std\"".into());
+    }
+    let toml = format!(
+        "[package]\nname = \"c20_usage\"\nversion = \"0.0.0\"\nedition = \"2021\"\n\n[workspace]\n\n[dependencies]\nderive_more = {{ path = \"{}\", default-features = false, features = [{}] }}\n\n[profile.dev]\ndebug = 0\nincremental = false\n",
+        ctx.mirror.display(),
+        feats.join(", ")
+    );
+    write_if_changed(&dir.join("Cargo.toml"), &toml)?;
+    if !dir.join("Cargo.lock").exists() {
+        let _ = std::fs::copy(ctx.mirror.join("Cargo.lock"), dir.join("Cargo.lock"));
+    }
+    let applicable: Vec<(usize, &str, &str, &str)> = super::p15::TEMPLATES
+        .iter()
+        .enumerate()
+        .filter(|(_, t)| {
+            let need = template_features(t.1);
+            !need.is_empty() && need.iter().all(|f| enabled.contains(f))
+        })
+        .map(|(i, t)| (i, t.0, t.1, t.2))
+        .collect();
+    if applicable.is_empty() {
+        return Ok(vec![]);
+    }
+    let mut dropped: BTreeMap<usize, String> = BTreeMap::new();
+    for _round in 0..6 {
+        let mut src = String::from("#![allow(dead_code, unused_imports, unused_variables, unused_mut, non_camel_case_types, deprecated)]\n");
+        src.push_str(super::proggen::RUNTIME);
+        src.push_str(super::p01::PRELUDE);
+        src.push('\n');
+        let mut ranges: Vec<(usize, usize, usize)> = vec![];
+        let mut line = src.matches('\n').count() + 1;
+        for (i, _name, items, driver) in &applicable {
+            if dropped.contains_key(i) {
+                continue;
+            }
+            let m = format!(
+                "pub mod t{i} {{\n    use crate::*;\n    pub mod friendly {{\n        #[allow(unused_imports)] use crate::*;\n        {items}\n    }}\n    macro_rules! drive {{ ($m:ident) => {{ {driver} }} }}\n    pub fn run() -> String {{ drive!(friendly) }}\n}}\n"
+            );
+            let n = m.matches('\n').count();
+            ranges.push((*i, line, line + n - 1));
+            line += n;
+            src.push_str(&m);
+        }
+        src.push_str("fn main() {\n    std::panic::set_hook(Box::new(|_| {}));\n");
+        for (i, name, _, _) in &applicable {
+            if !dropped.contains_key(i) {
+                src.push_str(&format!("    println!(\"@@{name}\\t{{}}\", match __catch(t{i}::run) {{ Ok(s) => s.replace('\\n', \"\\\\n\"), Err(p) => format!(\"<panic: {{p}}>\") }});\n"));
+            }
+        }
+        src.push_str("}\n");
+        std::fs::write(dir.join("src/main.rs"), &src).map_err(|e| e.to_string())?;
+        let mut c = cargo_in(ctx, sl, &dir);
+        c.args(["build", "--offline", "-q", "--message-format=json", "-j", &sl.jobs.to_string()]);
+        let out = run_cargo(ctx, &mut c, CMD_TIMEOUT)?;
+        if out.timed_out {
+            return Err("usage crate: cargo did not finish".into());
+        }
+        if let Some(d) = out.errors.iter().find(|d| d.origin == Origin::Tree || d.origin == Origin::Foreign) {
+            return Err(format!("usage crate: derive_more or a dependency failed to build although `cargo check` succeeded before: {}", head(&d.rendered, 600)));
+        }
+        if out.ok && out.errors.is_empty() {
+            break;
+        }
+        let mut new = 0;
+        for d in &out.errors {
+            match ranges.iter().find(|(_, a, b)| d.line >= *a && d.line <= *b) {
+                Some((i, _, _)) => {
+                    if !dropped.contains_key(i) {
+                        new += 1;
+                    }
+                    dropped.entry(*i).or_default().push_str(&format!("{}\n", head(&d.rendered, 700)));
+                }
+                None => return Err(format!("usage crate: diagnostic outside the usage programs: {}", head(&d.rendered, 600))),
+            }
+        }
+        if new == 0 {
+            return Err(format!("usage crate: cargo failed without new diagnostics: {}", tail(&out.stderr, 800)));
+        }
+    }
+    // run
+    let bin = sl.target.join("debug").join("c20_usage");
+    let outp = Command::new(&bin).output().map_err(|e| format!("usage crate: cannot run {}: {e}", bin.display()))?;
+    let text = String::from_utf8_lossy(&outp.stdout);
+    let mut results = vec![];
+    for (i, name, _, _) in &applicable {
+        if let Some(e) = dropped.get(i) {
+            results.push((name.to_string(), Err(e.clone())));
+        } else {
+            let line = text.lines().find_map(|l| l.strip_prefix(&format!("@@{name}\t")));
+            match line {
+                Some(l) => results.push((name.to_string(), Ok(l.to_string()))),
+                None => return Err(format!("usage crate: no output line for `{name}` (exit {:?})", outp.status)),
+            }
+        }
+    }
+    Ok(results)
 }
 
 /// Oracle 2. Returns (asserted probes, items that resolve, missing [(item, rustc message)], leaked [item]).
@@ -1014,6 +1201,7 @@ pub fn run(ctx: &Ctx) -> Report {
         }
         Tier::Thorough => plan_thorough(ctx, &tree),
     };
+    init_usage_reference(ctx, &tree, jobs, &mut rep);
     let results = run_sets(ctx, &tree, &sets, nslots, jobs, mandatory, budget);
 
     let nfeat = tree.derive_features.len();
@@ -1063,7 +1251,8 @@ pub fn run(ctx: &Ctx) -> Report {
         ev.label_n("export_probes_asserted", res.probes_asserted as u64);
         ev.label_n("test_programs_run", res.tests_run.len() as u64);
         ev.label_n("test_functions_passed", res.test_fns_passed);
-        ev.sample(json!({"set": set.key(), "test_programs": res.tests_run, "test_functions_passed": res.test_fns_passed, "items_resolved": res.items_resolved, "secs": (res.secs * 10.0).round() / 10.0}));
+        ev.label_n("usage_programs_run", res.usage_programs as u64);
+        ev.sample(json!({"set": set.key(), "test_programs": res.tests_run, "test_functions_passed": res.test_fns_passed, "items_resolved": res.items_resolved, "usage_programs": res.usage_programs, "secs": (res.secs * 10.0).round() / 10.0}));
         for e in &res.infra {
             rep.infra_errors.push(format!("features {}: {e}", set.key()));
         }
@@ -1140,6 +1329,7 @@ pub fn replay(ctx: &Ctx, case: &Value) -> Report {
         }
     };
     let sl = slot(ctx, 0, env_usize("DMV_C20_JOBS", 8));
+    init_usage_reference(ctx, &tree, sl.jobs, &mut rep);
     let res = eval_set(ctx, &tree, &set, &sl);
     rep.evidence.eval(1);
     for e in &res.infra {
